@@ -10,8 +10,8 @@
      omitempty: [m_layers = None] is JSON null / an omitted array,
      [m_at = []] an omitted artifactType, [m_subject = None] an omitted subject;
    - json.Marshal and the digest function are parameters ([marshal], [H]);
-   - the target is a content store with a key discipline (digest only, or media
-     type + digest + size), that may or may not implement Exists, may already
+   - the target is a content store with a key discipline (digest only, media
+     type + digest + size, or digest per manifest/blob namespace), that may or may not implement Exists, may already
      hold content, and may fail at one chosen storage operation ([fa]);
    - time.Now().UTC().Format(RFC3339) is the parameter [now];
      the validation of a caller-supplied created value is the recogniser [rfc3339_ok]
@@ -170,10 +170,26 @@ Definition ensure_created (ann : list kv) (key now : str) : option (list kv) :=
   end.
 
 (* ---------- the target ---------- *)
+(* how a target decides that two descriptors name the same content *)
+Inductive keykind :=
+| KFull        (* media type + digest + size: memory store, fallback of the file store *)
+| KDigest      (* digest only: OCI layout *)
+| KNamespace.  (* digest within the manifest / blob namespace: a registry repository *)
+
 Record tcfg := mkTcfg {
   t_exists : bool;     (* the pusher also implements content.ReadOnlyStorage *)
-  t_bydigest : bool    (* keyed by digest only (OCI layout, registry) / by mediaType+digest+size (memory) *)
+  t_key : keykind
 }.
+
+(* registry/remote/manifest.go defaultManifestMediaTypes (hand-written; tied by correspondence) *)
+Definition manifest_media_types : list str :=
+  [ b "application/vnd.docker.distribution.manifest.v2+json";
+    b "application/vnd.docker.distribution.manifest.list.v2+json";
+    MediaTypeImageManifest;
+    b "application/vnd.oci.image.index.v1+json";
+    MediaTypeArtifactManifest ].
+
+Definition is_manifest_mt (mt : str) : bool := existsb (str_eqb mt) manifest_media_types.
 
 Record entry := mkEntry { e_mt : str; e_dg : str; e_sz : Z; e_bytes : str }.
 
@@ -188,10 +204,15 @@ Record state := mkState {
   s_events : list event     (* in call order *)
 }.
 
-Definition same_key (bd : bool) (d : desc) (e : entry) : bool :=
-  str_eqb (d_dg d) (e_dg e) && (bd || (str_eqb (d_mt d) (e_mt e) && (d_sz d =? e_sz e)%Z)).
+Definition same_key (k : keykind) (d : desc) (e : entry) : bool :=
+  str_eqb (d_dg d) (e_dg e) &&
+  match k with
+  | KDigest => true
+  | KFull => str_eqb (d_mt d) (e_mt e) && (d_sz d =? e_sz e)%Z
+  | KNamespace => Bool.eqb (is_manifest_mt (d_mt d)) (is_manifest_mt (e_mt e))
+  end.
 
-Definition stored (bd : bool) (st : list entry) (d : desc) : bool := existsb (same_key bd d) st.
+Definition stored (k : keykind) (st : list entry) (d : desc) : bool := existsb (same_key k d) st.
 
 Definition faulty (fa : option nat) (s : state) : bool :=
   match fa with Some k => Nat.eqb k (s_ops s) | None => false end.
@@ -203,14 +224,14 @@ Definition tick (s : state) (ev : event) : state :=
 Definition do_exists (tc : tcfg) (fa : option nat) (s : state) (d : desc) : state * option bool :=
   let s' := tick s (EvExists d) in
   if faulty fa s then (s', None)
-  else (s', Some (stored (t_bydigest tc) (s_store s) d)).
+  else (s', Some (stored (t_key tc) (s_store s) d)).
 
 (* Push: false = injected error; ErrAlreadyExists is success for every caller in pack.go *)
 Definition do_push (tc : tcfg) (fa : option nat) (s : state) (r : role) (d : desc) (bytes : str)
   : state * bool :=
   let s' := tick s (EvPush r d bytes) in
   if faulty fa s then (s', false)
-  else if stored (t_bydigest tc) (s_store s) d then (s', true)
+  else if stored (t_key tc) (s_store s) d then (s', true)
   else (mkState (s_store s ++ [mkEntry (d_mt d) (d_dg d) (d_sz d) bytes]) (s_ops s') (s_events s'), true).
 
 (* pushIfNotExist *)
